@@ -148,8 +148,10 @@ pub fn gen_c05(r: &mut Rng, tier: &str) -> Vec<Case> {
                 15 => (vec![B, G, U], "topn-nullable"),
                 16 => (vec![X, W, A], "absent-keys"),
                 17 => (vec![B], "expr-key-nullable"),
-                _ => (vec![A, F, S], "limit-offset-edges"),
+                _ => (vec![A, F, S], if ti % 2 == 0 { "limit-offset-edges" } else { "nonnull-keys" }),
             };
+            let qi = if qi >= 18 && ti % 2 == 1 { 0 } else { qi };
+            let qi = if (qi == 15 || qi == 17) && ti % 2 == 1 { 13 } else { qi };
             if !keycols.is_empty() {
                 let nk = if qi == 15 || qi == 17 { 1 } else { 1 + r.below(3) as usize };
                 for _ in 0..nk {
@@ -296,6 +298,7 @@ pub fn gen_c04(r: &mut Rng, tier: &str) -> Vec<Case> {
         let layout = gen_layout(r, n, 4, false);
         fix_null_tails(&mut table, &layout, &[B, G, U, MN, FN]);
         for qi in 0..20 {
+            let qi = if qi >= 13 && (ti + qi) % 2 == 1 { 3 + qi % 8 } else { qi };
             let (keys, measures, cls): (Vec<usize>, Vec<usize>, &str) = match qi {
                 0..=2 => (vec![], vec![M, FM], "global"),
                 3..=11 => (vec![*r.pick(&[A, S, F])], vec![M, FM], "one-nonnull-key"),
